@@ -41,7 +41,7 @@ theorem parseCidr_prefix (b0 b1 b2 b3 : UInt8) (len : Nat) (infer allowHost : Bo
   have hdec := allDig_fmtNat 10 (by decide) (by decide) len
   have hsplit : splitOnN '/' 2 (dotted [b0, b1, b2, b3] ++ '/' :: fmtNat 10 len) = [dotted [b0, b1, b2, b3], fmtNat 10 len] := by
     rw [splitOnN_append '/' 1 _ _ (dotted_no_slash _), splitOnN_none '/' 0 _ (hdec.not_mem (by rw [dv_slash]; decide))]
-  unfold parseCidr
+  unfold parseCidr cidrPlain cidrLen cidrMask
   rw [hsplit]
   simp only
   rw [pyInt_dig 10 (by decide) _ hdec (fmtNat_ne_nil _ _), foldDig_fmtNat 10 (by decide) (by decide)]
@@ -116,7 +116,7 @@ theorem parseCidr_mask_branch (s a0 a1 : Str) (M A : IP4) (len : Nat) (infer all
       match cidrCheck 32 (A.toUnsigned false) allowHost (32 - len) with
       | .ok n => .ok (A, n)
       | .error e => .error e := by
-  unfold parseCidr
+  unfold parseCidr cidrPlain cidrLen cidrMask
   rw [hs]
   simp only
   rw [h1]
